@@ -616,7 +616,13 @@ pub fn generate(seed: u64, tier: Tier, p: &Profile) -> Scenario {
     if pm(&mut g.r, p.plutus) && !g.plutus_ids.is_empty() {
         let n = 1 + g.r.below(3);
         let mut last_plutus_wit: Option<Wit> = None;
+        // (own stream: sessions without this feature stay as they were) a Plutus-locked UTxO that carries a reference
+        // script of its own - priced by the ledger like any other reference script, also when the validator of the
+        // UTxO is itself read from a reference input.  Only the `*_utxo` entry points are told the output, so every
+        // hand-over of such a UTxO goes through them.
+        let mut r8 = Rng::stream(seed, 8);
         for _ in 0..n {
+            let own_sref: Option<u16> = if r8.chance(1, 6) { Some(r8.below(g.w.scripts.len() as u64) as u16) } else { None };
             let s = match &last_plutus_wit {
                 Some(prev) if g.r.chance(1, 3) => prev.script,
                 _ => *g.r.pick(&g.plutus_ids.clone()),
@@ -634,7 +640,7 @@ pub fn generate(seed: u64, tier: Tier, p: &Profile) -> Scenario {
             };
             let addr = if g.r.chance(1, 2) { AddrSpec::Ent(Cred::Script(s)) } else { AddrSpec::Base(Cred::Script(s), Cred::Key(g.kid())) };
             let assets = if use_assets && g.r.chance(1, 3) { vec![AssetQ { p: classes[0].0, n: classes[0].1.clone(), q: g.amount() }] } else { vec![] };
-            let u = g.new_utxo(addr, coin + g.min_ada(60) * assets.len() as u64, assets, at, None);
+            let u = g.new_utxo(addr, coin + g.min_ada(60) * assets.len() as u64 + if own_sref.is_some() { g.min_ada(3200) } else { 0 }, assets, at, own_sref);
             let du = match du_self {
                 None => DatumUse::Witness(d),
                 Some(false) => DatumUse::None,
@@ -689,7 +695,7 @@ pub fn generate(seed: u64, tier: Tier, p: &Profile) -> Scenario {
                 // (either order of entry points); the later witness is the one that counts
                 let mut first = wit.clone();
                 first.red = g.next_red();
-                plan.pre.push(Op::InScript { utxo: u, wit: first, by_utxo: g.r.chance(1, 2), mistaken: None });
+                plan.pre.push(Op::InScript { utxo: u, wit: first, by_utxo: g.r.chance(1, 2) || own_sref.is_some(), mistaken: None });
             }
             let mistaken = if pm(&mut g.r, p.corrections) {
                 // first handed over with another Plutus script of the world by mistake
@@ -698,7 +704,7 @@ pub fn generate(seed: u64, tier: Tier, p: &Profile) -> Scenario {
             } else {
                 None
             };
-            plan.pre.push(Op::InScript { utxo: u, wit, by_utxo: g.r.chance(1, 2), mistaken: mistaken.map(|m| if g.r.chance(1, 3) { m | 0x4000 } else { m }) });
+            plan.pre.push(Op::InScript { utxo: u, wit, by_utxo: g.r.chance(1, 2) || own_sref.is_some(), mistaken: mistaken.map(|m| if g.r.chance(1, 3) { m | 0x4000 } else { m }) });
             plan.uses_plutus = true;
             plan.langs |= 1 << (lang - 1);
             explicit_value += coin as u128;
